@@ -344,6 +344,15 @@ func (ex *Exec) eval1(e *Expr, env *Env) Val {
 				srt = SInt
 				t = nil
 			default:
+				if strings.HasPrefix(bv.Type, "*") {
+					if pt := ex.lookupType(bv.Type[1:], env); pt != nil {
+						b := ts.Bound(bv.Name, SInt)
+						bs = append(bs, b)
+						nenv.vars[bv.Name] = RefPtr{Ref: b, Elem: pt}
+						continue
+					}
+					unsup("contract: bound variable type %q", bv.Type)
+				}
 				if bt := ex.lookupType(bv.Type, env); bt != nil && isInteger(bt) {
 					t = bt
 					srt = ex.intSort(bt)
